@@ -2,15 +2,35 @@ import StepModel.PyAgg
 import StepModel.PyAggSpec
 /-! Line-protocol driver for the Python-aggregate model and for `Spec.Aggregate` (same protocol as
 harness/h_pyagg.py).  `m_c19 model` answers with the model of the code, `m_c19 spec` with the EXPRESS specification
-(the property's oracle). -/
+(the property's oracle).  `reset` forgets all containers, `use i` selects container slot `i`, `new …` creates a
+container in the current slot; every slot is an independent state (the model has no state shared between containers). -/
 open StepModel.PyAgg
 open StepModel.Spec
 
 def showLogical : Logical → String
   | .t => "logical T" | .f => "logical F" | .u => "logical U"
 
+def showTy : Ty → String
+  | .simple t => toString t
+  | .agg .array b => s!"A{b}" | .agg .list b => s!"L{b}" | .agg .bag b => s!"B{b}" | .agg .set b => s!"S{b}"
+
+/-- `0 1 2` simple types; `A0 L1 B2 S0 …` = ARRAY/LIST/BAG/SET OF the simple type -/
+def parseTy (s : String) : Option Ty :=
+  match s.toNat? with
+  | some t => if t < 3 then some (.simple t) else none
+  | none =>
+    match s.toList with
+    | [k, d] =>
+      let b := d.toNat - '0'.toNat
+      if d.isDigit && b < 3 then
+        match k with
+        | 'A' => some (.agg .array b) | 'L' => some (.agg .list b) | 'B' => some (.agg .bag b) | 'S' => some (.agg .set b)
+        | _ => none
+      else none
+    | _ => none
+
 def showAns : Ans → String
-  | .ok => "ok" | .val x => s!"val {x.ty} {x.v}" | .unset => "unset" | .refused => "refused"
+  | .ok => "ok" | .val x => s!"val {showTy x.ty} {x.v}" | .unset => "unset" | .refused => "refused"
   | .int n => s!"int {n}" | .indet => "indet" | .logical l => showLogical l
 
 def parseKind : String → Option Kind
@@ -24,21 +44,21 @@ def parseHi (s : String) : Option (Option Int) :=
 
 def parseOp : List String → Option Op
   | ["set", i, t, v] => do
-    let i ← i.toInt?; let t ← t.toNat?; let v ← v.toNat?
-    if t < 3 then pure (.set i ⟨t, v⟩) else none
+    let i ← i.toInt?; let t ← parseTy t; let v ← v.toNat?
+    pure (.set i ⟨t, v⟩)
   | ["get", i] => do let i ← i.toInt?; pure (.get i)
   | ["add", t, v] => do
-    let t ← t.toNat?; let v ← v.toNat?
-    if t < 3 then pure (.add ⟨t, v⟩) else none
+    let t ← parseTy t; let v ← v.toNat?
+    pure (.add ⟨t, v⟩)
   | ["size"] => some .size | ["hiindex"] => some .hiindex | ["loindex"] => some .loindex
   | ["hibound"] => some .hibound | ["lobound"] => some .lobound | ["unique"] => some .unique
   | _ => none
 
 def parseDecl : List String → Option Decl
   | [k, lo, hi, base, u, o, n] => do
-    let k ← parseKind k; let lo ← lo.toInt?; let hi ← parseHi hi; let base ← base.toNat?
+    let k ← parseKind k; let lo ← lo.toInt?; let hi ← parseHi hi; let base ← parseTy base
     let u ← parseFlag u; let o ← parseFlag o; let _ ← parseFlag n
-    if base < 3 then pure { kind := k, lo, hi, base, unique := u, optional := o } else none
+    pure { kind := k, lo, hi, base, unique := u, optional := o }
   | _ => none
 
 inductive St
@@ -46,38 +66,51 @@ inductive St
   | model (a : Agg)
   | spec (d : Decl) (v : Aggregate.Value)
 
-def handle (useSpec : Bool) (s : St) (line : String) : St × String :=
+/-- the interpreter: containers by slot, the current slot -/
+structure Proc where
+  slots : List (Nat × St)
+  cur : Nat
+
+def Proc.get (p : Proc) : St := ((p.slots.find? (fun q => q.1 == p.cur)).map (·.2)).getD .none
+def Proc.put (p : Proc) (s : St) : Proc := { p with slots := (p.cur, s) :: p.slots.filter (fun q => q.1 != p.cur) }
+
+def handle (useSpec : Bool) (p : Proc) (line : String) : Proc × String :=
   match (line.trimAscii.toString.splitOn " ").filter (· ≠ "") with
-  | [] => (s, "")
+  | [] => (p, "")
+  | ["reset"] => ({ slots := [], cur := 0 }, "ok")
+  | ["use", i] =>
+    match i.toNat? with
+    | some i => ({ p with cur := i }, "ok")
+    | Option.none => (p, "bad-op")
   | "new" :: rest =>
     match parseDecl rest with
-    | Option.none => (.none, "bad-op")
+    | Option.none => (p.put .none, "bad-op")
     | some d =>
       if useSpec then
-        if Aggregate.legal d then (.spec d (Aggregate.initial d), "ok") else (.none, "refused")
+        if Aggregate.legal d then (p.put (.spec d (Aggregate.initial d)), "ok") else (p.put .none, "refused")
       else
         match Agg.new d with
-        | .ok a => (.model a, "ok")
-        | .error _ => (.none, "refused")
+        | .ok a => (p.put (.model a), "ok")
+        | .error _ => (p.put .none, "refused")
   | ws =>
     match parseOp ws with
-    | Option.none => (s, "bad-op")
+    | Option.none => (p, "bad-op")
     | some op =>
-      match s with
-      | .none => (s, "no-aggregate")
-      | .model a => let (a', r) := a.step op; (.model a', showAns r.obs)
-      | .spec d v => let (v', r) := Aggregate.step d v op; (.spec d v', showAns r)
+      match p.get with
+      | .none => (p, "no-aggregate")
+      | .model a => let (a', r) := a.step op; (p.put (.model a'), showAns r.obs)
+      | .spec d v => let (v', r) := Aggregate.step d v op; (p.put (.spec d v'), showAns r)
 
-partial def loop (useSpec : Bool) (h : IO.FS.Stream) (out : IO.FS.Stream) (s : St) : IO Unit := do
+partial def loop (useSpec : Bool) (h : IO.FS.Stream) (out : IO.FS.Stream) (p : Proc) : IO Unit := do
   let line ← h.getLine
   if line.isEmpty then return ()
-  let (s', o) := handle useSpec s line
+  let (p', o) := handle useSpec p line
   if o ≠ "" then out.putStrLn o
-  loop useSpec h out s'
+  loop useSpec h out p'
 
 def main (args : List String) : IO UInt32 := do
   let out ← IO.getStdout
   match args with
-  | ["model"] => loop false (← IO.getStdin) out .none; out.flush; return 0
-  | ["spec"] => loop true (← IO.getStdin) out .none; out.flush; return 0
+  | ["model"] => loop false (← IO.getStdin) out { slots := [], cur := 0 }; out.flush; return 0
+  | ["spec"] => loop true (← IO.getStdin) out { slots := [], cur := 0 }; out.flush; return 0
   | _ => IO.eprintln "usage: m_c19 model|spec"; return 2
